@@ -62,6 +62,14 @@ claim("C09",
       "Trusted: regex readers of the three outputs (key lists only); reflect.StructOf reconstruction; class restrictions: no backslash escapes in tags, no key conflict between flattened embedded structs (guard evaluated per case).",
       "Coq proof (tag scanner, list lemmas) + field-table/key-list correspondence + real encoding/json oracle + metamorphic oracle", "DESIGN.md §5 C09")
 
+claim("C18",
+      "Decisive dynamic oracle: analysis + the seven generators run stage by stage (child process, recovered panic value: runtime.Error / fatal = crash) on corpus and synthesised modules mixing every legal spelling with every unsupported form. "
+      "Coq theorems for the modelled crash mechanisms, for all inputs: the one-level classifier only refuses with diagnostics, the closure can only fail by divergence, enum detection is total for every constant declaration shape, "
+      "the fixed-width name slicing functions (gounions, randdata, sql, dart) are total for names of every length; pinned-tree crashes kept as refutation witnesses. "
+      "Tie: the analysis outcome class per module equals the model's, and the names produced by the slicing functions are read back from the generated texts and compared with the model's.",
+      "Partial: crashes inside template code not modelled (fmt calls, the rest of the generators, go/types) are only observed, not proved absent; the proof covers the mechanisms named in the property's anchors.",
+      "Coq proof (totality of modelled mechanisms) + outcome-class / name correspondence + stage-wise panic oracle", "DESIGN.md §5 C18")
+
 NOT_YET = "check not built yet in this round (planned, see DESIGN.md §6)"
 
 checks, na = [], []
